@@ -91,6 +91,10 @@ D_VerifySucceeds(in) ==
 (*         meta : "empty"|"disjoint"|"colliding"|"reserved"]               *)
 (* art  = [annotated : BOOLEAN, store : "mem" | "oci" | "ociReopen",       *)
 (*         signerAnn : "none" | "unrelated" | "clashing"]                  *)
+(*        store "ociExternal": the layout is opened anew for every call    *)
+(*        and, between calls, another tool moves the tag to another        *)
+(*        artifact of the layout: "resolved" always means what the layout  *)
+(*        resolves WHEN the call is made                                   *)
 (*        signerAnn: manifest annotations the signer supplies of its own   *)
 (*        accord (an envelope-generating plugin may): "clashing" ones use  *)
 (*        the thumbprint and creation-time keys - the generated values     *)
